@@ -302,6 +302,7 @@ func (u *Unit) enterLoopHead(st *State, fr *Frame, head *ssa.BasicBlock, li *loo
 		}
 	}
 	fr.loops[head] = ls
+	u.coverBlock(st, fr, head)
 	return !st.dead
 }
 
